@@ -149,6 +149,14 @@ def op_text(op):
         return "flink %s 1" % hx(op[1])           # a link to another (existing) workspace file: for the model a live foreign link
     if k == "lexlink":
         return "flink %s 0" % hx(op[1])           # a link whose TEXT cleans to the cache object but which resolves elsewhere (dangling)
+    if k == "pull":
+        return " ".join(["pull", op[1], str(int(op[2]))] + [hx(t) for t in op[3]])       # strategy, single-stage, targets
+    if k == "rmindex":
+        return "rmindex"
+    if k in ("fdirlink", "dirlink"):
+        return "flink %s 1" % hx(op[1])           # a link to an existing directory outside the project: for the model a live foreign link
+    if k == "writeolddir":
+        return "write %s %s" % (hx(op[1]), op[2])  # new file, the containing directory keeps an OLD modification time (rsync -a, tar x)
     if k == "append":
         return "write %s %s" % (hx(op[1]), op[2])  # in-place append to a regular file: for the model a write of the longer content
     if k == "movecache":
@@ -337,7 +345,7 @@ class Project:
         if env_extra:
             self.env.update(env_extra)
         self.cache_mode = cache_mode
-        if cache_mode in ("rel", "sym"):
+        if cache_mode in ("rel", "sym", "symx"):
             self.cache = os.path.join(self.root, ".dud", "cache")
             cache_cfg = None
         elif cache_mode == "abs":
@@ -352,9 +360,14 @@ class Project:
         rc, so, se = self.dud(["init"], cwd=self.root)
         if rc != 0:
             raise RuntimeError("dud init failed: %r" % se)
-        if cache_mode == "sym":
-            # the default cache location is a symbolic link to a directory elsewhere (a cache kept on a bigger disk)
-            target = os.path.join(base, "cache-on-big-disk")
+        if cache_mode in ("sym", "symx"):
+            # the default cache location is a symbolic link to a directory elsewhere (a cache kept on a bigger disk);
+            # symx: that directory is on another device, so the cache directory itself is a file-system boundary
+            if cache_mode == "symx":
+                self.shm = tempfile.mkdtemp(prefix="verif.", dir="/dev/shm")
+                target = os.path.join(self.shm, "cache")
+            else:
+                target = os.path.join(base, "cache-on-big-disk")
             os.makedirs(target)
             if os.path.isdir(self.cache) and not os.path.islink(self.cache):
                 os.rmdir(self.cache)
@@ -390,14 +403,14 @@ class Project:
         os.makedirs(new_outer)
         new_root = os.path.join(new_outer, "proj")
         os.rename(self.root, new_root)
-        if self.cache_mode in ("rel", "sym"):
+        if self.cache_mode in ("rel", "sym", "symx"):
             self.cache = os.path.join(new_root, ".dud", "cache")
         self.root = new_root
         self.cwd = os.path.join(os.fsencode(self.root), self.cwd_sub) if self.cwd_sub else os.fsencode(self.root)
 
     def cleanup(self):
         shutil.rmtree(self.base, ignore_errors=True)
-        if self.cache_mode == "shm":
+        if self.cache_mode in ("shm", "symx"):
             shutil.rmtree(self.shm, ignore_errors=True)
 
     def dud(self, args, cwd=None, timeout=None):
@@ -790,6 +803,8 @@ def apply_op(proj, op, mstep, b3):
         if k == "run":
             r["log"] = [l for l in open(proj.log, "rb").read().split(b"\n") if l] if os.path.exists(proj.log) else []
             r["inconsistent"] = proj.inconsistent_stages()
+    elif k == "pull":
+        rc, so, se = proj.dud(["pull"] + (["--copy"] if op[1] == "c" else []) + (["--single-stage"] if op[2] else []) + targets(op[3]))
     elif k == "status":
         rc, se, lines = proj.status_lines(op[1])
         r["lines"] = lines
@@ -860,6 +875,30 @@ def apply_op(proj, op, mstep, b3):
                 rb = os.path.realpath(base_b)
                 text = os.path.join(os.path.relpath(rb, real_dir), b"lexmnt", b"..", os.path.relpath(obj, rb))
                 os.symlink(text, full)
+        elif k == "rmindex":
+            ip = os.path.join(proj.root, ".dud", "index")
+            if os.path.exists(ip):
+                os.unlink(ip)
+        elif k in ("fdirlink", "dirlink"):
+            # fdirlink: a link to some existing directory outside the project; dirlink: the directory is first copied out (links
+            # followed, same names and bytes) and then replaced by a link to that copy ("the data lives on another disk")
+            full = proj.abspath(op[1])
+            proj.ext_n = getattr(proj, "ext_n", 0) + 1
+            ext = os.path.join(os.fsencode(proj.base), b"external-dir-%d" % proj.ext_n)
+            if k == "dirlink" and os.path.isdir(full):
+                shutil.copytree(full, ext, symlinks=False)
+            else:
+                os.makedirs(os.path.join(ext, b"sub"))
+                with open(os.path.join(ext, b"keep.txt"), "wb") as f:
+                    f.write(b"outside data")
+            proj.remove(op[1])
+            os.makedirs(os.path.dirname(full), exist_ok=True)
+            os.symlink(ext, full)
+        elif k == "writeolddir":
+            proj.put("file", op[1], op[2])
+            d_ = os.path.dirname(proj.abspath(op[1]))
+            os.utime(proj.abspath(op[1]), (1577836800, 1577836800))
+            os.utime(d_, (1577836800, 1577836800))
         elif k == "append":
             full = proj.abspath(op[1])
             new = content_bytes(op[2])
@@ -880,7 +919,7 @@ def apply_op(proj, op, mstep, b3):
             new = os.path.join(proj.base, "relocated-cache-%d" % (len(proj.harness_removed) + 1))
             os.rename(proj.cache, new)
             proj.cache = new
-            proj.cache_mode = "abs" if proj.cache_mode in ("rel", "sym") else proj.cache_mode
+            proj.cache_mode = "abs" if proj.cache_mode in ("rel", "sym", "symx") else proj.cache_mode
             cfg = os.path.join(proj.root, ".dud", "config.yaml")
             lines = [l for l in open(cfg).read().splitlines() if not l.startswith("cache:")]
             open(cfg, "w").write("\n".join(lines) + "\ncache: %s\n" % new)
@@ -963,7 +1002,7 @@ def apply_op(proj, op, mstep, b3):
     return r
 
 
-DUD_OPS = ("commit", "checkout", "status", "run", "push", "fetch", "graph")
+DUD_OPS = ("commit", "checkout", "status", "run", "push", "fetch", "graph", "pull")
 
 
 def run_case(args):
